@@ -68,7 +68,7 @@ def _genotype_likelihoods(reads: A[f8, 3], ploidy: int, haplotypes: A[i1, 2], n_
     requires(1 <= ploidy, ploidy <= 127, 1 <= U, U <= 127, reads.shape[1] == haplotypes.shape[1])
     requires(n_genotypes == cwr(U, ploidy), n_genotypes < 2 ** 53, GTOK(GT, n_genotypes, ploidy, U))
     requires(implies(read_counts is not None, len(read_counts) == len(reads) and forall(0, len(reads), lambda r: read_counts[r] >= 1)))
-    requires(CALLOK(reads, haplotypes, U, haplotypes.shape[1], reads.shape[2]))
+    requires(CALLOK(reads, haplotypes, U, haplotypes.shape[1], reads.shape[2], len(reads)))
     # C03: entry i is the likelihood of the genotype with G-field index i  (stored in single precision: A5)
     ensures(len(result) == n_genotypes)
     ensures(forall(0, n_genotypes, lambda i: result[i] == LLKA(reads, CN, haplotypes, GT[i], ploidy, haplotypes.shape[1], len(reads))))
@@ -184,7 +184,7 @@ def _call_posterior_mode(reads: A[f8, 3], ploidy: int, haplotypes: A[i1, 2], n_g
     requires(1 <= ploidy, ploidy <= 127, 1 <= U, U <= 127, reads.shape[1] == haplotypes.shape[1], 0 <= inbreeding, inbreeding < 1)
     requires(n_genotypes == cwr(U, ploidy), n_genotypes < 2 ** 53, GTOK(GT, n_genotypes, ploidy, U))
     requires(implies(read_counts is not None, len(read_counts) == len(reads) and forall(0, len(reads), lambda r: read_counts[r] >= 1)))
-    requires(CALLOK(reads, haplotypes, U, NN, reads.shape[2]))
+    requires(CALLOK(reads, haplotypes, U, NN, reads.shape[2], len(reads)))
     requires(implies(frequencies is not None, len(frequencies) == U and forall(0, U, lambda a: finite(frequencies[a]) and frequencies[a] > 0)))
     # some genotype is possible
     requires(0 <= T, T < n_genotypes, not isninf(LLKA(reads, CN, haplotypes, GT[T], ploidy, NN, len(reads))))
@@ -247,7 +247,7 @@ def _posterior_allele_frequencies(ldenominator: float, reads: A[f8, 3], ploidy: 
     requires(1 <= ploidy, ploidy <= 127, 1 <= U, U <= 127, reads.shape[1] == haplotypes.shape[1], 0 <= inbreeding, inbreeding < 1, finite(ldenominator))
     requires(n_genotypes == cwr(U, ploidy), n_genotypes < 2 ** 53, GTOK(GT, n_genotypes, ploidy, U))
     requires(implies(read_counts is not None, len(read_counts) == len(reads) and forall(0, len(reads), lambda r: read_counts[r] >= 1)))
-    requires(CALLOK(reads, haplotypes, U, NN, reads.shape[2]))
+    requires(CALLOK(reads, haplotypes, U, NN, reads.shape[2], len(reads)))
     requires(implies(frequencies is not None, len(frequencies) == U and forall(0, U, lambda a: finite(frequencies[a]) and frequencies[a] > 0)))
     # C03 (streaming path): the same functionals of the distribution  p_i = exp(log joint_i - log denominator)
     ensures(len(result[0]) == U, len(result[1]) == U)
